@@ -45,6 +45,9 @@ func (d *Dialer) DialContext(ctx context.Context, network, host string) (Conn, e
 	}
 	n := Current
 	g.Yield("dial "+host, nil)
+	if err := ctx.Err(); err != nil {
+		return nil, err // a dial with an expired or cancelled context fails at once, as net.Dialer does
+	}
 	n.Dials++
 	if n.RefuseDials > 0 {
 		n.RefuseDials--
